@@ -59,7 +59,7 @@ for sid in sys.argv[1:]:
         "breaks": m0.get("summary") or m0.get("breaks") or m0.get("description", ""),
         "needs": m0.get("needs") or m0.get("trigger", ""),
         "files": m0.get("files", []),
-        "origin": "independent sub-agent given only the property record and a scratch worktree (round b)",
+        "origin": "independent sub-agent given only the property record and a scratch worktree (round " + sid[-1] + ")",
         "applies_to": f"/repo HEAD {head} (git -C /repo apply /verif/seeded/{sid}/patch.diff)",
         "confirmed": {
             "demo_on_unpatched_HEAD": "PASS (exit 0)",
